@@ -263,7 +263,7 @@ func GenReq(t *rapid.T, idx int, o ReqOpts) (*wire.Req, *ReqInfo) {
 			nt := rapid.IntRange(1, 3).Draw(t, "nTrailers")
 			var names []string
 			for i := 0; i < nt; i++ {
-				nm := rapid.SampledFrom([]string{"X-Trailer-A", "X-Checksum", "x-tr-b", "Foo-Trailer"}).Draw(t, "trailerName")
+				nm := rapid.SampledFrom([]string{"X-Trailer-A", "X-Checksum", "x-tr-b", "Foo-Trailer", "0-Trailer", "00"}).Draw(t, "trailerName")
 				dup := false
 				for _, e := range names {
 					if strings.EqualFold(e, nm) {
@@ -462,4 +462,254 @@ func (s *Stream) Encode() {
 		s.Bytes, m = r.Encode(s.Bytes)
 		s.Marks = append(s.Marks, m)
 	}
+}
+
+// ---------------------------------------------------------------------------
+// Responses (client direction).
+
+// RespOpts steers GenResp.
+type RespOpts struct {
+	Fold       bool
+	UntilClose bool // until-close framing allowed (last response on a connection)
+	Huge       bool
+}
+
+// GenResp draws a well-formed response to a request with the given method.
+func GenResp(t *rapid.T, idx int, method string, o RespOpts) *wire.Resp {
+	r := &wire.Resp{Proto: "HTTP/1.1"}
+	r.Status = rapid.SampledFrom([]int{200, 200, 200, 201, 204, 304, 404, 500, 206, 302}).Draw(t, "status")
+	r.Reason = map[int]string{200: "OK", 201: "Created", 204: "No Content", 304: "Not Modified", 404: "Not Found", 500: "Internal Server Error", 206: "Partial Content", 302: "Found"}[r.Status]
+	if rapid.IntRange(0, 9).Draw(t, "oddReason") == 0 {
+		r.Reason = rapid.SampledFrom([]string{"", "Whatever Reason", "OK OK"}).Draw(t, "reason")
+	}
+	bodiless := wire.Bodiless(method, r.Status)
+	n := BodyLen(t, "respBodyLen", o.Huge)
+	salt := byte(rapid.IntRange(0, 255).Draw(t, "respSalt"))
+	flavor := rapid.IntRange(0, 8).Draw(t, "respFlavor")
+	var lines []wire.KV
+	nh := rapid.IntRange(0, 5).Draw(t, "nRespHeaders")
+	for i := 0; i < nh; i++ {
+		name := rapid.SampledFrom([]string{"X-A", "x-b", "Cache-Control", "X-Custom-Header", "ETag", "Vary", "X-A", "Location", "Set-Cookie"}).Draw(t, "respName")
+		var v string
+		if name == "Set-Cookie" {
+			v = fmt.Sprintf("k%d=v%d; Path=/", i, idx)
+		} else {
+			v, _ = HeaderValue(t, o.Fold)
+		}
+		lines = append(lines, wire.KV{K: name, V: v})
+	}
+	if rapid.IntRange(0, 3).Draw(t, "contentType") == 0 {
+		lines = append(lines, wire.KV{K: "Content-Type", V: rapid.SampledFrom([]string{"text/plain", "application/json; charset=utf-8", "application/octet-stream"}).Draw(t, "ct")})
+	}
+	fr := rapid.IntRange(0, 9).Draw(t, "respFraming")
+	switch {
+	case bodiless:
+		r.Framing = wire.FrNone
+		// stray framing headers on bodiless responses are legal and must be ignored for framing
+		switch rapid.IntRange(0, 3).Draw(t, "strayFraming") {
+		case 0:
+			lines = append(lines, wire.KV{K: "Content-Length", V: fmt.Sprint(n)})
+		case 1:
+			if r.Status != 204 && r.Status/100 != 1 {
+				lines = append(lines, wire.KV{K: "Transfer-Encoding", V: "chunked"})
+			}
+		}
+		n = 0
+	case o.UntilClose && fr == 0:
+		r.Framing = wire.FrUntilClose
+	case fr < 5:
+		r.Framing = wire.FrCL
+		lines = append(lines, wire.KV{K: mixCase(t, "Content-Length"), V: fmt.Sprint(n)})
+	default:
+		r.Framing = wire.FrChunked
+		lines = append(lines, wire.KV{K: mixCase(t, "Transfer-Encoding"), V: "chunked"})
+		nch := rapid.IntRange(1, 4).Draw(t, "respNChunks")
+		for i := 0; i < nch && n > 0; i++ {
+			r.ChunkSizes = append(r.ChunkSizes, rapid.IntRange(1, n).Draw(t, "respChunk"))
+		}
+		r.HexUpper = rapid.Bool().Draw(t, "respHexUpper")
+		if rapid.IntRange(0, 2).Draw(t, "respTrailers") == 0 {
+			nm := rapid.SampledFrom([]string{"X-Trailer-A", "X-Checksum"}).Draw(t, "respTrailerName")
+			r.Trailers = append(r.Trailers, wire.KV{K: nm, V: "tv" + fmt.Sprint(idx)})
+			lines = append(lines, wire.KV{K: "Trailer", V: nm})
+		}
+	}
+	if r.Framing == wire.FrUntilClose && rapid.Bool().Draw(t, "connClose") {
+		lines = append(lines, wire.KV{K: "Connection", V: "close"})
+	}
+	r.Body = Body(n, idx, salt, flavor)
+	r.BodyLen = n
+	r.Lines = lines
+	if rapid.IntRange(0, 7).Draw(t, "interim") == 0 {
+		r.Interim100 = rapid.IntRange(1, 2).Draw(t, "nInterim")
+	}
+	return r
+}
+
+// ---------------------------------------------------------------------------
+// Structure-aware mutation of encoded messages.
+
+var hostileBytes = []byte{'\r', '\n', 0, ' ', '\t', ':', ';', ',', '=', '&', '%', '+', '/', '.', '\\', '"', '-', '0', '9', 'a', 'Z', 0x7f, 0x80, 0xff}
+
+var hostileSnippets = []string{
+	"Trailer: a,,b\r\n", "Trailer: ,\r\n", "Trailer: Content-Length\r\n", "Trailer: \r\n", "Transfer-Encoding: chunked\r\n", "Content-Length: 5\r\n", "Content-Length: -1\r\n",
+	"Content-Length: 18446744073709551616\r\n", "Content-Length: 9223372036854775807\r\n", "Content-Length: 99999999999999999999\r\n", "Content-Length: 0x10\r\n", "Content-Length: +5\r\n", "Content-Length: 5 5\r\n", "Content-Length:\r\n",
+	"Transfer-Encoding: identity\r\n", "Transfer-Encoding: gzip, chunked\r\n", "Expect: 100-continue\r\n", "Connection: close\r\n", "Connection: keep-alive, close\r\n", "Host: \r\n", "Host: a\r\nHost: b\r\n",
+	"Content-Type: multipart/form-data; boundary=\r\n", "Content-Type: multipart/form-data; boundary=\"\r\n", "Content-Type: multipart/form-data; boundary=x\r\n", "Content-Type: multipart/form-data\r\n",
+	"Cookie: =; ;=; a\r\n", "Cookie: a=\"b; c\r\n", "Range: bytes=-\r\n", "If-Modified-Since: x\r\n", ": novalue\r\n", "NoColon\r\n", " leading: space\r\n", "\r\n", "\n", "\r", "\r\r\n", "\n\n",
+	"ffffffffffffffffff\r\n", "7fffffffffffffff\r\n", "-1\r\n", "0\r\n\r\n", "1;ext\r\na\r\n", "GET a:b HTTP/1.1\r\n\r\n", "GET * HTTP/1.1\r\nHost: h\r\n\r\n", "GET http://h/p HTTP/1.1\r\nHost: h\r\n\r\n", "GET //h//p HTTP/1.1\r\nHost: h\r\n\r\n",
+	"OPTIONS * HTTP/1.1\r\nHost: h\r\n\r\n", "CONNECT h:1 HTTP/1.1\r\n\r\n", "GET / HTTP/1.1\r\n\r\n", "GET / HTTP/0.9\r\n\r\n", "GET /\r\n\r\n", " / HTTP/1.1\r\n\r\n", "GET  HTTP/1.1\r\nHost: h\r\n\r\n",
+	"HTTP/1.1 200 OK\r\n\r\n", "HTTP/1.1 100 Continue\r\n\r\n", "HTTP/1.1 999\r\n\r\n", "HTTP/1.1 abc OK\r\n\r\n", "HTTP/1.1 20\r\n\r\n", "HTTP/1.1\r\n\r\n", "Set-Cookie: a=b; SameSite=\r\n", "Set-Cookie: =\r\n", "Set-Cookie: a=b; expires=x; max-age=y\r\n",
+}
+
+// Mutate applies 1..3 structure-aware mutations to b. marks are interesting
+// offsets (line/part boundaries); it returns the mutant and the mutator names.
+func Mutate(t *rapid.T, b []byte, marks []int) ([]byte, []string) {
+	out := append([]byte(nil), b...)
+	var names []string
+	k := rapid.IntRange(1, 3).Draw(t, "nMutations")
+	for i := 0; i < k; i++ {
+		lines := lineStarts(out)
+		m := rapid.IntRange(0, 11).Draw(t, "mutator")
+		switch m {
+		case 0: // delete a line
+			if len(lines) >= 2 {
+				j := rapid.IntRange(0, len(lines)-2).Draw(t, "line")
+				out = append(out[:lines[j]:lines[j]], out[lines[j+1]:]...)
+				names = append(names, "delete-line")
+			}
+		case 1: // duplicate a line
+			if len(lines) >= 2 {
+				j := rapid.IntRange(0, len(lines)-2).Draw(t, "line")
+				l := append([]byte(nil), out[lines[j]:lines[j+1]]...)
+				out = append(out[:lines[j+1]:lines[j+1]], append(l, out[lines[j+1]:]...)...)
+				names = append(names, "duplicate-line")
+			}
+		case 2: // transpose two adjacent lines
+			if len(lines) >= 3 {
+				j := rapid.IntRange(0, len(lines)-3).Draw(t, "line")
+				a := append([]byte(nil), out[lines[j]:lines[j+1]]...)
+				bb := append([]byte(nil), out[lines[j+1]:lines[j+2]]...)
+				copy(out[lines[j]:], bb)
+				copy(out[lines[j]+len(bb):], a)
+				names = append(names, "transpose-lines")
+			}
+		case 3: // truncate
+			if len(out) > 1 {
+				p := rapid.IntRange(1, len(out)-1).Draw(t, "truncateAt")
+				if len(marks) > 0 && rapid.Bool().Draw(t, "truncateAtMark") {
+					q := rapid.SampledFrom(marks).Draw(t, "mark") + rapid.IntRange(-3, 3).Draw(t, "delta")
+					if q >= 1 && q < len(out) {
+						p = q
+					}
+				}
+				out = out[:p]
+				names = append(names, "truncate")
+			}
+		case 4, 5: // replace a delimiter by a hostile byte
+			var ds []int
+			for j, c := range out {
+				if c == ' ' || c == ':' || c == '\r' || c == '\n' || c == ',' || c == ';' || c == '=' {
+					ds = append(ds, j)
+					if len(ds) > 4000 {
+						break
+					}
+				}
+			}
+			if len(ds) > 0 {
+				j := rapid.SampledFrom(ds).Draw(t, "delim")
+				out[j] = rapid.SampledFrom(hostileBytes).Draw(t, "hostileByte")
+				names = append(names, "replace-delimiter")
+			}
+		case 6: // insert hostile bytes
+			if len(out) > 0 {
+				p := rapid.IntRange(0, len(out)).Draw(t, "insertAt")
+				n := rapid.IntRange(1, 4).Draw(t, "insertN")
+				ins := make([]byte, n)
+				for x := range ins {
+					ins[x] = rapid.SampledFrom(hostileBytes).Draw(t, "hostileByte")
+				}
+				out = append(out[:p:p], append(ins, out[p:]...)...)
+				names = append(names, "insert-bytes")
+			}
+		case 7, 8: // insert a hostile snippet at a line start
+			if len(lines) > 0 {
+				p := lines[rapid.IntRange(0, len(lines)-1).Draw(t, "line")]
+				sn := rapid.SampledFrom(hostileSnippets).Draw(t, "snippet")
+				out = append(out[:p:p], append([]byte(sn), out[p:]...)...)
+				names = append(names, "insert-snippet")
+			}
+		case 9: // overwrite a digit run with a hostile number
+			var ds []int
+			for j, c := range out {
+				if c >= '0' && c <= '9' && (j == 0 || out[j-1] < '0' || out[j-1] > '9') {
+					ds = append(ds, j)
+					if len(ds) > 2000 {
+						break
+					}
+				}
+			}
+			if len(ds) > 0 {
+				j := rapid.SampledFrom(ds).Draw(t, "digitRun")
+				e := j
+				for e < len(out) && out[e] >= '0' && out[e] <= '9' {
+					e++
+				}
+				num := rapid.SampledFrom([]string{"0", "1", "-1", "99999999999999999999", "18446744073709551615", "4294967296", "2147483648", "9223372036854775807", "00000000000000000001", "1e3", "0x5", "", " 7"}).Draw(t, "number")
+				out = append(out[:j:j], append([]byte(num), out[e:]...)...)
+				names = append(names, "hostile-number")
+			}
+		case 10: // flip one byte anywhere
+			if len(out) > 0 {
+				p := rapid.IntRange(0, len(out)-1).Draw(t, "flipAt")
+				out[p] ^= byte(1 << uint(rapid.IntRange(0, 7).Draw(t, "bit")))
+				names = append(names, "bit-flip")
+			}
+		case 11: // splice: move a chunk of bytes elsewhere
+			if len(out) > 8 {
+				a := rapid.IntRange(0, len(out)-2).Draw(t, "spliceFrom")
+				l := rapid.IntRange(1, min(64, len(out)-a)).Draw(t, "spliceLen")
+				seg := append([]byte(nil), out[a:a+l]...)
+				rest := append(out[:a:a], out[a+l:]...)
+				p := rapid.IntRange(0, len(rest)).Draw(t, "spliceTo")
+				out = append(rest[:p:p], append(seg, rest[p:]...)...)
+				names = append(names, "splice")
+			}
+		}
+	}
+	return out, names
+}
+
+func min(a, b int) int {
+	if a < b {
+		return a
+	}
+	return b
+}
+
+func lineStarts(b []byte) []int {
+	s := []int{0}
+	for i, c := range b {
+		if c == '\n' && i+1 <= len(b) {
+			s = append(s, i+1)
+			if len(s) > 400 {
+				break
+			}
+		}
+	}
+	return s
+}
+
+// Havoc draws a pure hostile byte string.
+func Havoc(t *rapid.T, maxLen int) []byte {
+	n := rapid.IntRange(0, maxLen).Draw(t, "havocLen")
+	var out []byte
+	for len(out) < n {
+		if rapid.IntRange(0, 3).Draw(t, "havocSnippet") == 0 {
+			out = append(out, rapid.SampledFrom(hostileSnippets).Draw(t, "snippet")...)
+		} else {
+			out = append(out, rapid.SampledFrom(hostileBytes).Draw(t, "hostileByte"))
+		}
+	}
+	return out
 }
